@@ -359,25 +359,23 @@ Definition step (s : state) (e : event) : option state :=
       | WClient => if c_closing (gc s c) then Some s1 else None
       | WTimeout => if timed then Some s1 else None
       end
-  | ECloseNoop c =>
-      let cl := gc s c in
-      match c_closed cl, c_pump cl with
-      | true, _ | _, PNone => Some s
-      | _, _ => None
-      end
+  | ECloseNoop c =>   (* Close of a client that is already closed returns at once *)
+      if c_closed (gc s c) then Some s else None
   | ECloseBegin c =>
       let cl := gc s c in
       match c_closed cl, c_closing cl, c_pump cl with
       | false, false, PRun | false, false, PExit =>
           let s1 := st s (c_topic cl) (close_topic_rec (s_caps s) (gt s (c_topic cl))) in
           Some (sc s1 c (mkC (c_recv cl) (c_hold cl) (c_pump cl) (c_topic cl) true false (c_held cl)))
+      | false, false, PNone =>   (* never subscribed: no topic to close, the rest is the same *)
+          Some (sc s c (mkC (c_recv cl) (c_hold cl) PNone (c_topic cl) true false (c_held cl)))
       | _, _, _ => None     (* Close overlapping another Close of the same client: not modelled *)
       end
-  | ECloseEnd c =>
+  | ECloseEnd c =>    (* wg.Wait() has returned (pump gone, or there never was one) *)
       let cl := gc s c in
       match c_closing cl, c_closed cl, c_pump cl, c_hold cl with
-      | true, false, PExit, None =>
-          Some (sc s c (mkC (c_recv cl) None PExit (c_topic cl) true true (c_held cl)))
+      | true, false, PExit, None | true, false, PNone, None =>
+          Some (sc s c (mkC (c_recv cl) None (c_pump cl) (c_topic cl) true true (c_held cl)))
       | _, _, _, _ => None
       end
   | EDrain c =>       (* for msg := range client.Recv() : takes the next left message *)
